@@ -391,6 +391,10 @@ def reshape(tens, shape, eps=1e-16, rmax=sys.maxsize):
                         core = cores[idx]
                 idx_shape += 1
                 if idx_shape == len(shape):
+                    # only modes of size 1 can be left: their cores carry a scalar factor (sign/phase)
+                    for c in [core]+cores[idx+1:]:
+                        cores_new[-1] = tn.einsum(
+                            'ijkl,lm->ijkm', cores_new[-1], c[:, 0, 0, :])
                     break
             else:
                 idx += 1
@@ -434,6 +438,10 @@ def reshape(tens, shape, eps=1e-16, rmax=sys.maxsize):
                         core = cores[idx]
                 idx_shape += 1
                 if idx_shape == len(shape):
+                    # only modes of size 1 can be left: their cores carry a scalar factor (sign/phase)
+                    for c in [core]+cores[idx+1:]:
+                        cores_new[-1] = tn.einsum(
+                            'ijk,kl->ijl', cores_new[-1], c[:, 0, :])
                     break
             else:
                 idx += 1
